@@ -49,7 +49,13 @@ def c_quartiles(x):
     return np.quantile(x, [0.25, 0.5, 0.75, 1.0])
 
 
-CALCS = {"mean_var_max": (c_mean_var_max, 3), "first_last": (c_first_last, 2), "quartiles": (c_quartiles, 4)}
+def c_tail_view(x):
+    """Pure, but returns a *view* of its argument (the last three observations)."""
+    return np.asarray(x)[-3:]
+
+
+CALCS = {"mean_var_max": (c_mean_var_max, 3), "first_last": (c_first_last, 2), "quartiles": (c_quartiles, 4),
+         "tail_view": (c_tail_view, 3)}
 
 
 def make_loss(spec):
@@ -157,7 +163,7 @@ def loss_spec(draw, d, n, kind=None, nonneg_weights=True):
     if kind == "minkowski":
         spec["p"] = draw(st.sampled_from([1, 2, 3, 1.5]))
     elif kind == "msm":
-        calc = draw(st.sampled_from([None, None, "mean_var_max", "first_last", "quartiles"]))
+        calc = draw(st.sampled_from([None, None, "mean_var_max", "first_last", "quartiles", "tail_view"]))
         spec["calc"] = calc
         k = 18 if calc is None else CALCS[calc][1]
         cov = draw(st.sampled_from(["identity", "inverse_variance", "matrix"]))
